@@ -470,3 +470,42 @@ def arith_boundary_modules(L, tab):
         m.functions = [[0, 0, 0, len(body), 0, 0]]
         out.append(("arith-NEG-%d" % a, m.build(L)))
     return out
+
+
+def cyclic_modules(L, tab):
+    """values that contain themselves, built by a handful of instructions, then printed, compared, converted and dropped: every
+    walk over a value (printing, equality, conversion to string, release) has to end"""
+    names = {nm: op for op, (nm, ops) in tab.items()}
+    E = lambda nm, *vals: nvm.encode_instr(names[nm], [v & ((1 << 64) - 1) for v in vals], tab)
+    TAG_INT, TAG_STRING = 1, 5
+    build = {
+        # array pushed into itself
+        "array": E("ARR_NEW", TAG_INT) + E("DUP") + E("ARR_PUSH"),
+        # hashmap that is its own value / key
+        "hashmap-value": E("HM_NEW", TAG_INT, TAG_INT) + E("DUP") + E("PUSH_I64", 1) + E("SWAP") + E("HM_SET"),
+        "hashmap-key": E("HM_NEW", TAG_INT, TAG_INT) + E("DUP") + E("DUP") + E("PUSH_I64", 2) + E("HM_SET"),
+        # a ring of two hashmaps: A[1] = B, B[2] = A
+        "hashmap-ring": (E("HM_NEW", TAG_INT, TAG_INT) + E("STORE_LOCAL", 0) + E("HM_NEW", TAG_INT, TAG_INT) + E("STORE_LOCAL", 1)
+                         + E("LOAD_LOCAL", 0) + E("PUSH_I64", 1) + E("LOAD_LOCAL", 1) + E("HM_SET") + E("POP")
+                         + E("LOAD_LOCAL", 1) + E("PUSH_I64", 2) + E("LOAD_LOCAL", 0) + E("HM_SET") + E("POP") + E("LOAD_LOCAL", 0)),
+        # hashmap inside an array inside the hashmap
+        "hashmap-array": (E("HM_NEW", TAG_INT, TAG_INT) + E("STORE_LOCAL", 0) + E("ARR_NEW", TAG_INT) + E("LOAD_LOCAL", 0) + E("ARR_PUSH") + E("STORE_LOCAL", 1)
+                          + E("LOAD_LOCAL", 0) + E("PUSH_I64", 7) + E("LOAD_LOCAL", 1) + E("HM_SET")),
+        # struct whose field is the struct
+        "struct": E("PUSH_I64", 5) + E("STRUCT_LITERAL", 0, 1) + E("DUP") + E("DUP") + E("STRUCT_SET", 0),
+    }
+    uses = {"println": E("PRINTLN"), "print": E("PRINT"), "to-string": E("CAST_STRING") + E("PRINTLN"), "equal-self": E("DUP") + E("EQ") + E("PRINTLN"),
+            "keys": E("HM_KEYS") + E("PRINTLN"), "values": E("HM_VALUES") + E("PRINTLN"), "drop": E("POP")}
+    out = []
+    for bn, b in build.items():
+        for un, u in uses.items():
+            if un in ("keys", "values") and not bn.startswith("hashmap"):
+                continue
+            m = nvm.Mod()
+            m.strings = [b"main"]
+            body = b + u + E("PUSH_I64", 0) + E("RET")
+            m.code = body
+            m.functions = [[0, 0, 0, len(body), 2, 0]]
+            m.entry = 0
+            out.append(("cyclic-%s-%s" % (bn, un), m.build(L)))
+    return out
